@@ -63,7 +63,7 @@ import (
 	"verifharness/gal"
 )
 
-const header = "From CSS Require Import Lib.Base Lib.Cases Model.Comb Model.PCR0Search Model.PCR0SearchCases."
+const header = "From CSS Require Import Lib.Base Lib.Cases Model.Comb Model.PCR0Search Model.PCR0Tool Model.PCR0SearchCases."
 
 const perShard = 24
 
@@ -671,7 +671,38 @@ func logDescr(log tpm.CommandLog) []string {
 }
 
 type runner struct {
-	c *gal.Ctx
+	c         *gal.Ctx
+	knownSeen map[string]int
+	dims      map[string]map[string]bool // generated conditions: dimension -> values seen
+}
+
+// dist counts one value of one dimension of the input distribution (evidence:
+// input_distribution "dist/<dimension>=<value>") and remembers that it occurred
+func (h *runner) dist(dim string, val interface{}) {
+	v := fmt.Sprint(val)
+	h.c.Count("dist/" + dim + "=" + v)
+	if h.dims == nil {
+		h.dims = map[string]map[string]bool{}
+	}
+	if h.dims[dim] == nil {
+		h.dims[dim] = map[string]bool{}
+	}
+	h.dims[dim][v] = true
+}
+
+// what the caller can see of a command log: every command with its digest, and the
+// bytes of the PCR0_DATA sources
+func fingerprint(log tpm.CommandLog) string {
+	h := sha256.New()
+	for i := range log {
+		fmt.Fprintf(h, "%d:%T:%s;", i, log[i].Command, log[i].Command.LogString())
+		if act, ok := log[i].CauseAction.(*tpmactions.TPMExtend); ok {
+			if ds, ok := act.DataSource.(*datasources.StaticData); ok {
+				h.Write(ds.RawBytes())
+			}
+		}
+	}
+	return hex.EncodeToString(h.Sum(nil))
 }
 
 func (h *runner) scenario(sc scenario) {
@@ -701,6 +732,13 @@ func (h *runner) scenario(sc scenario) {
 	if gs == nil {
 		gs = gomaxprocs
 	}
+	fp := fingerprint(sc.log)
+	nData := 0
+	for _, e := range ents {
+		if e.isData {
+			nData++
+		}
+	}
 	prev := runtime.GOMAXPROCS(0)
 	defer runtime.GOMAXPROCS(prev)
 	for _, g := range gs {
@@ -713,14 +751,58 @@ func (h *runner) scenario(sc scenario) {
 		runtime.GOMAXPROCS(g)
 		o := run(sc.log, sc.alg, target, sc.st, 20*time.Second)
 		runtime.GOMAXPROCS(prev)
+		fpAfter := fingerprint(sc.log)
 		d := map[string]interface{}{"GOMAXPROCS": g, "result": o.descr()}
 		for k, v := range base {
 			d[k] = v
 		}
-		lit := fmt.Sprintf("CRun %d %s %d %s %s %s", g, settingsLit(sc.st), sc.alg, cl, tterm, o.lit())
+		// the repository's own consumer of the result, on the same log
+		var tool toolObs
+		if o.kind == "some" {
+			applicable := true
+			for _, p := range o.disabled {
+				applicable = applicable && p >= 0
+			}
+			if applicable {
+				tool = runTool(sc.log, sc.alg, target, o.res)
+				d["pcr0tool_says"] = tool.verdict
+			}
+		}
+		lit := fmt.Sprintf("CRun %d %s %d %s %s %s %s", g, settingsLit(sc.st), sc.alg, cl, tterm, o.lit(), tool.lit())
 		nontriv := len(ents) >= 2 && sc.pert.label != "garbage"
 		idx := c.Add(sc.kind+"/"+sc.pert.label, lit, d, nontriv)
 		site := "pkg/bootflow/subsystems/trustchains/tpm/pcrbruteforcer/reproduce_expected_pcr0.go"
+		// input distribution (evidence)
+		h.dist("GOMAXPROCS", g)
+		h.dist("measurements", len(ents))
+		h.dist("PCR0_DATA-entries", nData)
+		h.dist("commands", len(sc.log))
+		h.dist("bank", sc.alg.String())
+		h.dist("MaxDisabledMeasurements", sc.st.MaxDisabledMeasurements)
+		h.dist("MaxReorders", sc.st.MaxReorders)
+		h.dist("MaxACMPolicyLinearDistance", sc.st.MaxACMPolicyLinearDistance)
+		if sc.st.EnableACMPolicyCombinatorialStrategy {
+			h.dist("combinatorial", sc.st.MaxACMPolicyCombinatorialDistance)
+		} else {
+			h.dist("combinatorial", "off")
+		}
+		h.dist("target-locality", sc.pert.loc)
+		h.dist("target-dropped", len(sc.pert.drop))
+		h.dist("target-swaps", len(sc.pert.swaps))
+		h.dist("target-register", sc.pert.acm.kind)
+		h.dist("oracle-reachable", rc.reachable)
+		h.dist("result", o.kind)
+		if o.kind == "some" {
+			h.dist("result-disabled", len(o.disabled))
+			h.dist("result-swaps", len(o.swaps))
+			h.dist("result-has-register", o.hasReg)
+			h.dist("result-locality", o.loc)
+		}
+		if fpAfter != fp {
+			c.OracleFail(idx, "the call modified the command log it was given (commands, digests or PCR0_DATA source bytes differ after the call)", site, d)
+			fp = fpAfter
+			continue
+		}
 		switch o.kind {
 		case "err":
 			c.OracleFail(idx, "ReproduceExpectedPCR0 returned an error: "+o.err, site, d)
@@ -763,6 +845,9 @@ func (h *runner) scenario(sc scenario) {
 			}
 		}
 		c.OracleOK()
+		if o.kind == "some" && tool.ran {
+			h.toolOracle(idx, sc, ents, o, tool, d)
+		}
 	}
 }
 
@@ -1239,7 +1324,7 @@ const siteComb = "pkg/bootflow/subsystems/trustchains/tpm/pcrbruteforcer/reprodu
 
 // combinatorialSearch.Process with a check that rejects everything: what every
 // context is offered.  withCase: the per-context summary goes to Coq as well.
-func (h *runner) comb(limit, g int, reg uint64, withCase bool) {
+func (h *runner) comb(limit, g int, reg uint64, withCase bool, full ...bool) {
 	c := h.c
 	p := &stratProbe{reg: reg}
 	in := map[string]interface{}{"MaxACMPolicyCombinatorialDistance": limit, "GOMAXPROCS": g, "register": fmt.Sprintf("0x%x", reg)}
@@ -1269,7 +1354,14 @@ func (h *runner) comb(limit, g int, reg uint64, withCase bool) {
 	d := map[string]interface{}{"MaxACMPolicyCombinatorialDistance": limit, "GOMAXPROCS": g, "register": fmt.Sprintf("0x%x", reg),
 		"init_calls": len(p.ctxs), "contexts_offered_something": len(ws), "offered_per_context": sizes, "offered": total}
 	idx := -1
-	if withCase {
+	if withCase && len(full) > 0 && full[0] {
+		// element by element
+		fs := make([]string, len(ws))
+		for i, s := range ws {
+			fs[i] = gal.UList(s)
+		}
+		idx = c.Add("comb-hook-full", fmt.Sprintf("CCombFull %s %d %s %s", gal.Z(int64(limit)), g, gal.U(reg), gal.List(fs)), d, limit > 0)
+	} else if withCase {
 		idx = c.Add("comb-hook", fmt.Sprintf("CComb %s %d %s %s", gal.Z(int64(limit)), g, gal.U(reg), gal.List(ls)), d, limit > 0)
 	} else {
 		c.Count("comb-hook-wide")
@@ -1363,6 +1455,167 @@ func (h *runner) probes() {
 		o := run(t.CommandLog, alg, target, st, 20*time.Second)
 		runtime.GOMAXPROCS(prev)
 		c.Probe(findDropAll, o.kind == "nil", "log = [PCR0_DATA], MaxDisabledMeasurements=4, requested PCR0 = value after TPMInit(0): "+o.kind)
+	}
+
+	// the consumer: boot log TPMInit(3), PCR0_DATA, three measurements (SHA256, as pcr0tool sum uses it)
+	alg = tpm2.AlgSHA256
+	toolProbe := func(p perturbation, maxReorders int) (observed, toolObs, bool) {
+		t := bootLog(reg, 3, false, [][]byte{{1}, {2}, {3}})
+		r := newRegistry()
+		ents := view(t.CommandLog, alg, r)
+		ds, _ := perturbed(alg, ents, p, r)
+		target := replayBytes(alg, p.loc, ds)
+		st := pcrbruteforcer.DefaultSettingsReproducePCR0()
+		st.MaxReorders = maxReorders
+		runtime.GOMAXPROCS(4)
+		o := run(t.CommandLog, alg, target, st, 20*time.Second)
+		runtime.GOMAXPROCS(prev)
+		if o.kind != "some" {
+			return o, toolObs{}, false
+		}
+		got, problem := applyAndReplay(t.CommandLog, alg, o.res)
+		return o, runTool(t.CommandLog, alg, target, o.res), problem == "" && bytes.Equal(got, target)
+	}
+	{
+		o, t, sound := toolProbe(perturbation{loc: 3, acm: acmChange{kind: "dec", dec: 1}}, 0)
+		c.Probe(findToolRegister, sound && t.verdict == "mismatch",
+			fmt.Sprintf("boot log TPMInit(3), PCR0_DATA, 3 measurements; requested PCR0 = the log with ACM_POLICY_STATUS - 1; default settings: result %v (sound: %v); pcr0tool: %s [%s]", o.descr(), sound, t.verdict, t.tail()))
+	}
+	{
+		o1, t1, s1 := toolProbe(perturbation{loc: 3, acm: acmChange{kind: "none"}, swaps: [][2]int{{1, 2}}}, 1)
+		o2, t2, s2 := toolProbe(perturbation{loc: 0, acm: acmChange{kind: "none"}, drop: []int{1}, swaps: [][2]int{{1, 2}}}, 1)
+		c.Probe(findToolSwaps, s1 && s2 && t1.verdict == "mismatch" && t2.verdict == "panic",
+			fmt.Sprintf("boot log TPMInit(3), PCR0_DATA, 3 measurements, MaxReorders=1; (a) measurements #1 and #2 swapped, locality 3: result %v (sound: %v); pcr0tool: %s [%s]; (b) measurement #1 dropped, the two behind it swapped, locality 0: result %v (sound: %v); pcr0tool: %s [%s]",
+				o1.descr(), s1, t1.verdict, t1.tail(), o2.descr(), s2, t2.verdict, t2.tail()))
+	}
+}
+
+// ---- boundary families of the comparisons the code makes ----
+
+// MaxDisabledMeasurements against the number of measurements: n-1, n, n+1; the dropped
+// subset has the largest size that is searched (min(n, MaxDisabledMeasurements) - 1) or one more.
+func (h *runner) maxDisabledBoundary() {
+	rng := h.c.Rng
+	for _, n := range []int{2, 3} {
+		alg := h.randBank()
+		t := bootLog(h.randReg(), []uint8{0, 3}[rng.Intn(2)], false, nil)
+		for i := 1; i < n; i++ {
+			if err := t.TPMExtend(ctxBG, 0, alg, h.randDigest(alg), nil); err != nil {
+				panic(err)
+			}
+		}
+		for _, md := range []int{n - 1, n, n + 1} {
+			lim := md
+			if lim > n {
+				lim = n
+			}
+			for _, k := range []int{lim - 1, lim} {
+				if k < 0 || k > n {
+					continue
+				}
+				label := "in"
+				if k >= lim {
+					label = "drop=max"
+				}
+				if k == n {
+					label = "drop-all"
+				}
+				st := pcrbruteforcer.SettingsReproducePCR0{MaxDisabledMeasurements: md, MaxReorders: 0}
+				st.MaxACMPolicyLinearDistance = 2
+				drop := rng.Perm(n)[:k]
+				sort.Ints(drop)
+				p := perturbation{label: label, loc: []uint8{0, 3}[rng.Intn(2)], drop: drop, acm: acmChange{kind: "none"}}
+				if k > 0 && drop[0] != 0 {
+					p.acm = acmChange{kind: "dec", dec: 1}
+				}
+				h.scenario(scenario{kind: "e2e-maxdisabled-boundary", log: t.CommandLog, alg: alg, st: st, pert: p, gs: []int{1, 3, 16},
+					source: fmt.Sprintf("boot simulation (PCR0_DATA) + %d appended TPMExtend; MaxDisabledMeasurements=%d, %d dropped", n-1, md, k)})
+			}
+		}
+	}
+}
+
+// fewer than two measurements left to swap (executeRecursive: availableForOrderSwap < 2):
+// 1..3 measurements with MaxReorders 1..3, the request needs no swap or the only possible one
+func (h *runner) fewForSwaps() {
+	rng := h.c.Rng
+	for _, n := range []int{1, 2, 3} {
+		alg := h.randBank()
+		t := bootLog(h.randReg(), []uint8{0, 3}[rng.Intn(2)], rng.Intn(2) == 0, nil)
+		for i := 1; i < n; i++ {
+			if err := t.TPMExtend(ctxBG, 0, alg, h.randDigest(alg), nil); err != nil {
+				panic(err)
+			}
+		}
+		for _, mr := range []int{1, 2, 3} {
+			for _, withSwap := range []bool{false, true} {
+				if withSwap && n < 2 {
+					continue
+				}
+				st := pcrbruteforcer.SettingsReproducePCR0{MaxDisabledMeasurements: 1, MaxReorders: mr}
+				st.MaxACMPolicyLinearDistance = 1
+				p := perturbation{label: "in", loc: []uint8{0, 3}[rng.Intn(2)], acm: acmChange{kind: "none"}}
+				if withSwap {
+					q := rng.Perm(n)[:2]
+					sort.Ints(q)
+					p.swaps = [][2]int{{q[0], q[1]}}
+				}
+				h.scenario(scenario{kind: "e2e-few-for-swaps", log: t.CommandLog, alg: alg, st: st, pert: p, gs: []int{gomaxprocs[(n+mr)%len(gomaxprocs)]},
+					source: fmt.Sprintf("boot simulation (PCR0_DATA) + %d appended TPMExtend; MaxReorders=%d", n-1, mr)})
+			}
+		}
+	}
+}
+
+// command logs as the consumer (printReproducePCR0Result) distinguishes them: TPMInit as the
+// first entry with the locality of the answer / with the other one, TPMInit not the first
+// entry, TPMInit twice, no TPMInit; answers without and with a swap, a dropped measurement,
+// a corrected register
+func (h *runner) toolShapes() {
+	rng := h.c.Rng
+	for shape := 0; shape < 5; shape++ {
+		alg := h.randBank()
+		tail := make([]byte, 24)
+		rng.Read(tail)
+		var log tpm.CommandLog
+		evlog := tpm.CommandLogEntry{Command: tpm.NewCommandEventLogAdd(*tpm.NewCommandExtend(0, alg, h.randDigest(alg)), tpmeventlog.EV_NO_ACTION, []byte("StartupLocality"))}
+		switch shape {
+		case 0: // TPMInit(3) first
+			log = append(log, tpm.CommandLogEntry{Command: tpm.NewCommandInit(3)})
+		case 1: // an event-log entry first, TPMInit(3) second
+			log = append(log, evlog, tpm.CommandLogEntry{Command: tpm.NewCommandInit(3)})
+		case 2: // TPMInit(0) first and TPMInit(3) later
+			log = append(log, tpm.CommandLogEntry{Command: tpm.NewCommandInit(0)})
+		case 3: // no TPMInit
+		case 4: // TPMInit(0) first, event-log entries in between
+			log = append(log, tpm.CommandLogEntry{Command: tpm.NewCommandInit(0)}, evlog)
+		}
+		log = append(log, synthData(alg, h.randReg(), tail, nil))
+		for i := 0; i < 3; i++ {
+			log = append(log, plainEntry(0, alg, h.randDigest(alg)))
+			if shape == 2 && i == 0 {
+				log = append(log, tpm.CommandLogEntry{Command: tpm.NewCommandInit(3)})
+			}
+			if shape == 4 && i == 1 {
+				log = append(log, evlog, plainEntry(2, alg, h.randDigest(alg)))
+			}
+		}
+		for _, loc := range []uint8{0, 3} {
+			perts := []perturbation{
+				{label: "in", loc: loc, acm: acmChange{kind: "none"}},
+				{label: "in", loc: loc, acm: acmChange{kind: "none"}, swaps: [][2]int{{1 + rng.Intn(2), 3}}},
+				{label: "in", loc: loc, acm: acmChange{kind: "none"}, swaps: [][2]int{{0, 1 + rng.Intn(3)}}},
+				{label: "in", loc: loc, acm: acmChange{kind: "none"}, drop: []int{1 + rng.Intn(3)}},
+				{label: "in", loc: loc, acm: acmChange{kind: "dec", dec: 1}},
+				{label: "in", loc: loc, acm: acmChange{kind: "none"}, drop: []int{1}, swaps: [][2]int{{1, 2}}},
+			}
+			for _, p := range perts {
+				st := pcrbruteforcer.SettingsReproducePCR0{MaxDisabledMeasurements: 2, MaxReorders: 1}
+				st.MaxACMPolicyLinearDistance = 2
+				h.scenario(scenario{kind: "e2e-tool-shapes", log: log, alg: alg, st: st, pert: p, gs: []int{gomaxprocs[rng.Intn(len(gomaxprocs))]},
+					source: fmt.Sprintf("hand-made log (consumer shape %d: position and locality of TPMInit entries)", shape)})
+			}
+		}
 	}
 }
 
@@ -1627,6 +1880,11 @@ func main() {
 		}
 	}
 	h.comb(4, 16, h.randReg(), false)
+	// small limits element by element (1 + 64 + 2016 registers)
+	h.comb(0, 2, h.randReg(), true, true)
+	h.comb(1, 3, h.randReg(), true, true)
+	h.comb(2, 1, h.randReg(), true, true)
+	h.comb(2, 16, 0x0000000200108681, true, true)
 	for i := 0; i < c.Scale(40, 400); i++ {
 		lim := []int{1, 2, 3, 3, 3}[rng.Intn(5)]
 		g := []int{1, 2, 3, 4, 5, 16, 64}[rng.Intn(7)]
@@ -1807,13 +2065,29 @@ func main() {
 	}
 
 	h.multiSwaps()
+	h.maxDisabledBoundary()
+	h.fewForSwaps()
+	h.toolShapes()
 	h.combWorkers(3)
 	h.linearLimitWitness()
 	h.manyWinners()
 	h.probes()
 
+	// no generated condition may be constant
+	var dimNames []string
+	for dim := range h.dims {
+		dimNames = append(dimNames, dim)
+	}
+	sort.Strings(dimNames)
+	for _, dim := range dimNames {
+		if len(h.dims[dim]) < 2 {
+			c.OracleFail(-1, "generator defect: the generated condition '"+dim+"' is constant over the whole run", "harness/cmd/c03", map[string]interface{}{"dimension": dim, "values": len(h.dims[dim])})
+		}
+	}
+	c.OracleOK()
+
 	c.Finish("e2e: command logs from boot simulations on fake_intel_firmware.fd (PCR0_DATA + 0..6 further measurements, appended TPMExtend, repeated digests, other-bank/other-PCR noise) and hand-made logs (no PCR0_DATA, PCR0_DATA not first / twice / inconsistent digest, aliasing digests); " +
 		"targets by known perturbations inside the search space (locality 0|3, dropped subset, decrement 0..limit-1 or bit flips, disjoint swaps) and just outside (decrement = limit and above, one more dropped/swapped than allowed, locality 1|2|4, 3-cycle, flips beyond the limit, everything dropped) and random bytes; both banks; random settings; each under GOMAXPROCS " + fmt.Sprint(gomaxprocs) +
-		"; e2e-slice-boundary: the dropped subset is the first/last combination of a goroutine's ID slice (k = 1..3 of 4..7 measurements, GOMAXPROCS 2,3,5,16); e2e-limit-2: MaxACMPolicyLinearDistance=2, register off by 2 and by 1 under GOMAXPROCS 1,2,3,4,5,16,64; e2e-many-winners: PCR0_DATA + 5..13 identical measurements, one dropped, decrement 3000 of 6000 (more succeeding goroutines than GOMAXPROCS+1); e2e-multi-swaps: every set of two disjoint swaps of 5 measurements and four sets of three swaps of 6, MaxReorders = number of swaps; e2e-comb-workers: MaxACMPolicyCombinatorialDistance=3 (41664 three-bit candidates, the first level that is split among 2..4 bruteforcer workers), register with 3 bits flipped chosen by combination ID (inside / first / last of a worker's slice) or 4 bits flipped (every worker scans its whole slice), GOMAXPROCS 2,3,4,5,16,64; linear-hook: per-goroutine offered registers for " + fmt.Sprint(len(limits)) + " limits x GOMAXPROCS; comb-hook: per-context summary of the registers combinatorialSearch.Process offers for distance limits 0..3 x GOMAXPROCS (limit 4 under GOMAXPROCS 16 through the oracle only), comb-hook-hit: accepted bit masks at and beyond the limit; both hooks run with an instrumented init/check that notices a context that is inside check() on two goroutines at once. A case is non-trivial when the log has >= 2 PCR0 measurements and the target is not random bytes (linear-hook: limit > 1, comb-hook: limit > 0); distinct = distinct Gallina literal")
+		"; e2e-slice-boundary: the dropped subset is the first/last combination of a goroutine's ID slice (k = 1..3 of 4..7 measurements, GOMAXPROCS 2,3,5,16); e2e-limit-2: MaxACMPolicyLinearDistance=2, register off by 2 and by 1 under GOMAXPROCS 1,2,3,4,5,16,64; e2e-many-winners: PCR0_DATA + 5..13 identical measurements, one dropped, decrement 3000 of 6000 (more succeeding goroutines than GOMAXPROCS+1); e2e-multi-swaps: every set of two disjoint swaps of 5 measurements and four sets of three swaps of 6, MaxReorders = number of swaps; e2e-comb-workers: MaxACMPolicyCombinatorialDistance=3 (41664 three-bit candidates, the first level that is split among 2..4 bruteforcer workers), register with 3 bits flipped chosen by combination ID (inside / first / last of a worker's slice) or 4 bits flipped (every worker scans its whole slice), GOMAXPROCS 2,3,4,5,16,64; linear-hook: per-goroutine offered registers for " + fmt.Sprint(len(limits)) + " limits x GOMAXPROCS; comb-hook: per-context summary of the registers combinatorialSearch.Process offers for distance limits 0..3 x GOMAXPROCS (limit 4 under GOMAXPROCS 16 through the oracle only), comb-hook-full: distance limits 0, 1, 2 element by element; comb-hook-hit: accepted bit masks at and beyond the limit; e2e-maxdisabled-boundary: MaxDisabledMeasurements = n-1, n, n+1 for n = 2, 3 measurements with the largest searched subset and one more dropped; e2e-few-for-swaps: 1..3 measurements with MaxReorders 1..3; e2e-tool-shapes: logs with TPMInit first (locality of the answer / the other one), not first, twice, absent, and answers with a swap, a dropped measurement, a corrected register, both; every returned result is also handed, with the same log, to pcr0tool's printReproducePCR0Result (bound with go:linkname, stdout captured) and its verdict is compared with Model/PCR0Tool.v inside Coq and judged by the oracle (a sound result must be reproduced; the two known signatures are open findings); the command log is fingerprinted before and after every call (commands, digests, PCR0_DATA source bytes); input_distribution dist/<dimension>=<value> counts the generated conditions per run of ReproduceExpectedPCR0, a constant dimension is a failure; both hooks run with an instrumented init/check that notices a context that is inside check() on two goroutines at once. A case is non-trivial when the log has >= 2 PCR0 measurements and the target is not random bytes (linear-hook: limit > 1, comb-hook: limit > 0); distinct = distinct Gallina literal")
 	_ = strings.Join
 }
